@@ -31,7 +31,14 @@ type c03Lists struct {
 	// Trusted is dns.trusted_proxies (nil: not configured; empty: nobody may
 	// speak for another client).
 	Trusted []string `json:"trusted_proxies"`
+	// Protection is the protection state of the server: "" or "on", "off"
+	// (disabled without a deadline), "paused" (disabled until one hour from
+	// now), "pause-expired" (disabled until one hour ago).  The access lists
+	// are enforced whatever it is.
+	Protection string `json:"protection"`
 }
+
+var c03ProtectionStates = []string{"on", "on", "on", "off", "paused", "paused", "pause-expired"}
 
 func (l *c03Lists) canon() string {
 	return strings.Join(l.Allow, ",") + "|" + strings.Join(l.Deny, ",") + "|" + strings.Join(l.Hosts, ",")
